@@ -111,9 +111,68 @@ def build(run):
               % (ntok, 3 * ntok, 3 * ntok + 2))
     run.assume("stubs under Kani: str::find(&str) as a byte loop; str::trim/trim_start/trim_end as ASCII-whitespace byte loops, equal to std on this alphabet (its only non-ASCII char U+F8FD is not White_Space); native replay uses real std",
                "precondition of is_repetitive: the optional-word marker U+F8FD occurs 0 or 2 times in the candidate string (documented: 'OPTIONAL_INDICATOR surrounds the optional text')")
+    crate_o, lemmas_o = ordinal_lemmas(run)
+    run.kani(crate_o, lemmas_o, timeout=300)
     run.kani(c, [dict(id="K-C04-a.optional_word_deletion", harness="optional_word_deletion_loses_nothing",
                       covers=["deletion branch reachable", "kept branch with markers reachable"], role=role,
                       exclusions={"marker-not-at-start": "MARKER_NOT_AT_START"},
                       api=lambda v, o: api_marker_in_middle() if role(v, o) == "marker-not-at-start" else (True, "no API recipe for this role"),
                       claim="Some(r) => optional = blanks* MARK word MARK blanks* ++ r, word a suffix of prev.trim_end()")],
              timeout=300 if run.tier == "quick" else 1500)
+
+
+# ======================================================================================================================
+# K-C04-c: ToOrdinal::convert leaves decimal literals alone and only strips the locale's block separators
+ORD_SHIM = r'''
+pub struct Prefs { period_locale: bool }
+impl Prefs {
+    /// the two separator preferences as set_separators produces them (decimal '.' / ',' with the matching block separators)
+    fn pref_to_string(&self, name: &str) -> String {
+        if name.len() == 17 { if self.period_locale { ".".to_string() } else { ",".to_string() } }                 // "DecimalSeparators"
+        else if name.len() == 15 { if self.period_locale { ", ".to_string() } else { ". ".to_string() } }             // "BlockSeparators"
+        else { assert!(false, "ToOrdinal asked for an unexpected preference"); String::new() }
+    }
+}
+'''
+
+ORD_HARNESS = r'''
+/// the guard statements of ToOrdinal::convert, verbatim; returns the early-return value, or the cleaned digit string
+fn ordinal_guard(number: &str, pref_manager: &Prefs) -> Option<String> {
+    GUARD_STMTS
+    Some(number)
+}
+CLEAN_NUMBER_FN
+fn check(period_locale: bool, number: &str, want: &[u8]) {
+    let p = Prefs { period_locale };
+    let r = ordinal_guard(number, &p);
+    match r { Some(s) => { assert!(s.as_bytes() == want, "ToOrdinal changed a decimal literal / did not strip exactly the block separators"); core::mem::forget(s); }
+              None => assert!(false, "ToOrdinal gave up on a plain number") }
+}
+CASES
+'''
+
+
+def api_ordinal(vals=None, out=None):
+    res = mcprobe([("pref", "Language es"), ("mathml", "<math><mroot><mi>x</mi><mn>2,5</mn></mroot></math>"), "speech",
+                   ("pref", "Language en"), ("pref", "DecimalSeparator ."), ("mathml", "<math><mroot><mi>x</mi><mn>2.5</mn></mroot></math>"), "speech"])
+    bad = res[2][0] != "OK" or "2,5" not in res[2][1] or res[6][0] != "OK" or "2.5" not in res[6][1]
+    return bad, {"script": "es: root index 2,5 ; en: root index 2.5 ; speech must contain the literal", "results": [res[2], res[6]]}
+
+
+def ordinal_lemmas(run):
+    x = slicer.Source.get("src/xpath_functions.rs")
+    conv = x.find("impl ToOrdinal", "fn convert")
+    s1 = conv.find_stmt("let block_separators =")
+    s2 = conv.find_stmt("let number = match clean_number")
+    clean = conv.find("fn clean_number")
+    guard = x.src[s1.start:s2.end]
+    run.uses(slicer.Span(x, s1.start, s2.end, "xpath_functions.rs::ToOrdinal::convert::guard statements"), clean)
+    cases = [("decimal_period", "true", "2.5", "2.5"), ("decimal_comma", "false", "2,5", "2,5"), ("blocks_period", "true", "1,234", "1234"),
+             ("blocks_comma", "false", "1.234", "1234"), ("plain", "true", "12", "12")]
+    case_text = "\n".join('HARNESS(ordinal_%s, 8, [str::contains => stubs::contains]) {\n    cover!(true, "reached");\n    check(%s, "%s", b"%s");\n}' % c for c in cases)
+    body = prelude.STR_STUBS + ORD_SHIM + ORD_HARNESS.replace("GUARD_STMTS", guard).replace("CLEAN_NUMBER_FN", clean.text).replace("CASES", case_text)
+    crate = kani_run.Crate("c04ord", body)
+    run.bound("K-C04-c", "number literals 2.5 / 2,5 / 1,234 / 1.234 / 12 under the two separator settings set_separators produces (one harness per case, every path on literals)")
+    run.assume("PreferenceManager::pref_to_string replaced by a two-entry table for DecimalSeparators / BlockSeparators; str::contains stubbed (byte loop; &String and char patterns recovered by size)")
+    return crate, [dict(id="K-C04-c.ordinal_guard." + c[0], harness="ordinal_" + c[0], covers=["reached"], role=lambda v, o: "ordinal-changes-a-literal", api=lambda v, o: api_ordinal(),
+                        claim="ToOrdinal::convert(%r) under decimal=%s keeps/cleans the literal to %r" % (c[2], "'.'" if c[1] == "true" else "','", c[3])) for c in cases]
